@@ -104,45 +104,54 @@ Definition classify (dups : list (id * list nat)) (i : nat) (s : id) : kind * li
       else (KFirst, dups)
   end.
 
-(* one iteration: new `current`, new table, emitted statement *)
-Definition decl_step (cur : list (id * expr)) (dups : list (id * list nat)) (i : nat) (st : stm)
+(* one iteration: new `current`, new table, emitted statement.
+   [fx = false] is the code as it is; [fx = true] is the proposed one-line repair
+   (`current[s.symbol] = s.expression.subs(current)` in the first-occurrence branch). *)
+Definition decl_step_gen (fx : bool) (cur : list (id * expr)) (dups : list (id * list nat)) (i : nat) (st : stm)
   : list (id * expr) * list (id * list nat) * option stm :=
   match st with
   | SOde amts args => (cur, dups, Some (SOde amts (map (subs_map cur) args)))
   | SAssign s e =>
       match classify dups i s with
       | (KPlain, d') => (cur, d', Some (SAssign s (subs_map cur e)))
-      | (KFirst, d') => (aset s e cur, d', None)             (* current[s] = s.expression  (raw) *)
+      | (KFirst, d') => (aset s (if fx then subs_map cur e else e) cur, d', None)
+                                                             (* current[s] = s.expression  (raw) *)
       | (KMiddle, d') => (aset s (subs_map cur e) cur, d', None)
       | (KLast, d') => (aremove s cur, d', Some (SAssign s (subs_map cur e)))
       end
   end.
 
-Fixpoint decl_walk (l : list stm) (i : nat) (cur : list (id * expr)) (dups : list (id * list nat))
+Fixpoint decl_walk_gen (fx : bool) (l : list stm) (i : nat) (cur : list (id * expr)) (dups : list (id * list nat))
   : list stm :=
   match l with
   | [] => []
   | st :: tl =>
-      match decl_step cur dups i st with
-      | (cur', dups', Some out) => out :: decl_walk tl (S i) cur' dups'
-      | (cur', dups', None) => decl_walk tl (S i) cur' dups'
+      match decl_step_gen fx cur dups i st with
+      | (cur', dups', Some out) => out :: decl_walk_gen fx tl (S i) cur' dups'
+      | (cur', dups', None) => decl_walk_gen fx tl (S i) cur' dups'
       end
   end.
 
-Definition declarative (l : list stm) : list stm := decl_walk l 0 [] (dup_table l).
+Definition declarative_gen (fx : bool) (l : list stm) : list stm := decl_walk_gen fx l 0 [] (dup_table l).
+(* make_declarative as it is *)
+Definition declarative (l : list stm) : list stm := declarative_gen false l.
+(* make_declarative with the proposed repair *)
+Definition declarative_patched (l : list stm) : list stm := declarative_gen true l.
 
-(* `current` after the loop (empty when the table is the real one, see Proofs) *)
-Fixpoint decl_final (l : list stm) (i : nat) (cur : list (id * expr)) (dups : list (id * list nat))
+(* `current` after the loop (always empty: Proofs.decl_final_empty) *)
+Fixpoint decl_final_gen (fx : bool) (l : list stm) (i : nat) (cur : list (id * expr)) (dups : list (id * list nat))
   : list (id * expr) :=
   match l with
   | [] => cur
-  | st :: tl => let '(cur', dups', _) := decl_step cur dups i st in decl_final tl (S i) cur' dups'
+  | st :: tl => let '(cur', dups', _) := decl_step_gen fx cur dups i st in decl_final_gen fx tl (S i) cur' dups'
   end.
 
 (* ---- guard of make_declarative ------------------------------------------------------------------
    [poisoned] = keys of `current` whose stored expression mentions a symbol that has been assigned by
    an emitted statement since the expression was stored: substituting such an entry is a stale
-   capture.  The first-occurrence branch stores the RAW expression, so it must not mention a key. *)
+   capture.  The first-occurrence branch stores the RAW expression, so it must not mention a key.
+   A compartmental system must not define a symbol that has a pending expression.  (That `current`
+   is empty after the loop needs no conjunct: Proofs.decl_final_empty proves it for every program.) *)
 Definition mentions (e : expr) (xs : list id) : bool := interp_nonempty (free_syms e) xs.
 
 Definition poison_after (cur : list (id * expr)) (xs : list id) (poisoned : list id) : list id :=
@@ -152,33 +161,35 @@ Definition removep (s : id) (l : list id) : list id := filter (fun x => negb (Po
 
 Definition use_ok (poisoned : list id) (syms : list id) : bool := negb (interp_nonempty syms poisoned).
 
-Fixpoint decl_guard (l : list stm) (i : nat) (cur : list (id * expr)) (dups : list (id * list nat))
+Fixpoint decl_guard_gen (fx : bool) (l : list stm) (i : nat) (cur : list (id * expr)) (dups : list (id * list nat))
          (poisoned : list id) : bool :=
   match l with
-  | [] => match cur, poisoned with [], [] => true | _, _ => false end
+  | [] => true
   | st :: tl =>
-      let '(cur', dups', _) := decl_step cur dups i st in
+      let '(cur', dups', _) := decl_step_gen fx cur dups i st in
       match st with
       | SOde amts args =>
           use_ok poisoned (flat_map free_syms args)
           && negb (interp_nonempty amts (akeys cur))
-          && decl_guard tl (S i) cur' dups' (poison_after cur' amts poisoned)
+          && decl_guard_gen fx tl (S i) cur' dups' (poison_after cur' amts poisoned)
       | SAssign s e =>
           match fst (classify dups i s) with
           | KPlain => use_ok poisoned (free_syms e)
-                      && decl_guard tl (S i) cur' dups' (poison_after cur' [s] poisoned)
-          | KFirst => use_ok poisoned (free_syms e)
-                      && negb (interp_nonempty (free_syms e) (akeys cur))
-                      && decl_guard tl (S i) cur' dups' (removep s poisoned)
+                      && decl_guard_gen fx tl (S i) cur' dups' (poison_after cur' [s] poisoned)
+          | KFirst => (if fx then use_ok poisoned (free_syms e)
+                       else negb (interp_nonempty (free_syms e) (akeys cur)))
+                      && decl_guard_gen fx tl (S i) cur' dups' (removep s poisoned)
           | KMiddle => use_ok poisoned (free_syms e)
-                       && decl_guard tl (S i) cur' dups' (removep s poisoned)
+                       && decl_guard_gen fx tl (S i) cur' dups' (removep s poisoned)
           | KLast => use_ok poisoned (free_syms e)
-                     && decl_guard tl (S i) cur' dups' (poison_after cur' [s] (removep s poisoned))
+                     && decl_guard_gen fx tl (S i) cur' dups' (poison_after cur' [s] (removep s poisoned))
           end
       end
   end.
 
-Definition g_no_stale_capture (l : list stm) : bool := decl_guard l 0 [] (dup_table l) [].
+Definition g_no_stale_capture (l : list stm) : bool := decl_guard_gen false l 0 [] (dup_table l) [].
+(* the guard that remains with the repair: no raw-capture conjunct *)
+Definition g_no_stale_capture_patched (l : list stm) : bool := decl_guard_gen true l 0 [] (dup_table l) [].
 
 (* ---- cleanup_model: the inlining loop -------------------------------------------------------------
    for s in statements: if Assignment and s.expression.is_symbol(): current[s.symbol] = s.expression
@@ -223,6 +234,11 @@ Fixpoint inline_guard (l : list stm) (cur : list (id * expr)) : bool :=
       end
   end.
 Definition g_inline_ok (l : list stm) : bool := inline_guard l [].
+
+(* no dependent variable is a pure alias that the inlining loop removes (hypothesis `~ In x (inlined l)` of
+   inline_preserves / cleanup_preserves for x = the dependent variable) *)
+Definition g_dv_not_alias (outs : list id) (l : list stm) : bool :=
+  forallb (fun y => negb (memp y (inlined l))) outs.
 
 (* the conjunct that fails on `V = VC ; S1 = V` *)
 Fixpoint no_alias_chain (l : list stm) (cur : list (id * expr)) : bool :=
@@ -294,8 +310,8 @@ Fixpoint canon_ok_from (known : list id) (l : list stm) (assigned : list id) : b
   end.
 Definition canon_ok (known : list id) (l : list stm) : bool := canon_ok_from known l [].
 
-Inductive res (A : Type) := ROk (a : A) | RValueError.
-Arguments ROk {A} a. Arguments RValueError {A}.
+Inductive res (A : Type) := ROk (a : A) | RValueError | RInternal.
+Arguments ROk {A} a. Arguments RValueError {A}. Arguments RInternal {A}.
 
 (* make_declarative as a model transformation: Model.replace raises when the result is not canonical *)
 Definition make_declarative_m (known : list id) (l : list stm) : res (list stm) :=
@@ -305,14 +321,54 @@ Definition make_declarative_m (known : list id) (l : list stm) : res (list stm) 
 Definition cleanup_stmts (fixed : list (id * Q)) (dists : list dist) (l : list stm) : list stm :=
   let fixed' := filter (fun kv => negb (memp (fst kv) (removed_params fixed dists))) fixed in
   replace_fixed fixed' (replace_non_random fixed dists (inline (declarative l))).
+(* the statements only: cleanup_m below adds the checks Model.replace performs *)
+
+(* replace_fixed_thetas replaces EVERY fixed parameter (`for p in model.parameters: if p.fix`), also
+   fixed omegas / sigmas.  [fixed_after] = the fixed parameters still present after
+   replace_non_random_rvs; [kept_dists] = the distributions still present. *)
+Definition fixed_after (fixed : list (id * Q)) (dists : list dist) : list (id * Q) :=
+  filter (fun kv => negb (memp (fst kv) (removed_params fixed dists))) fixed.
+Definition kept_dists (fixed : list (id * Q)) (dists : list dist) : list dist :=
+  filter (fun d => negb (forallb (is_fixed_zero fixed) (d_params d))) dists.
+Definition cleanup_params (fixed : list (id * Q)) (dists : list dist) (params : list id) : list id :=
+  filter (fun p => negb (memp p (removed_params fixed dists)) && negb (memp p (akeys (fixed_after fixed dists))))
+         params.
+(* variance parameters of the remaining distributions that are no longer parameters of the model *)
+(* (a fixed parameter is either removed by replace_non_random_rvs or replaced by replace_fixed_thetas) *)
+Definition dangling (fixed : list (id * Q)) (dists : list dist) : list id :=
+  filter (fun p => memp p (akeys fixed)) (flat_map d_params (kept_dists fixed dists)).
+(* Model.replace -> validate_parameters: a joint distribution with a variance entry that is not a
+   parameter any more cannot be made numeric (TypeError) *)
+Definition joint_dangling (fixed : list (id * Q)) (dists : list dist) : bool :=
+  existsb (fun d => match d_names d with
+                    | _ :: _ :: _ => existsb (fun p => memp p (akeys fixed)) (d_params d)
+                    | _ => false end) (kept_dists fixed dists).
+(* the documented behaviour: only thetas are replaced *)
+Definition g_fixed_are_thetas (fixed : list (id * Q)) (dists : list dist) : bool :=
+  match dangling fixed dists with [] => true | _ => false end.
+
+(* the part of cleanup_model after make_declarative, on the declarative statements [d].  (The test
+   `s.expression.is_symbol()` looks at the expression AFTER symengine canonicalised the substituted
+   expression, so the correspondence check feeds this stage with the implementation's own declarative
+   statements.) *)
+Definition cleanup_from_decl (known : list id) (fixed : list (id * Q)) (dists : list dist) (d : list stm)
+  : res (list stm) :=
+  let i := inline d in
+  if canon_ok known i then
+    if joint_dangling fixed dists then RInternal
+    else ROk (replace_fixed (fixed_after fixed dists) (replace_non_random fixed dists i))
+  else RValueError.
 
 Definition cleanup_m (known : list id) (fixed : list (id * Q)) (dists : list dist) (l : list stm)
   : res (list stm) :=
   let d := declarative l in
-  if canon_ok known d then
-    let i := inline d in
-    if canon_ok known i then ROk (cleanup_stmts fixed dists l) else RValueError
-  else RValueError.
+  if canon_ok known d then cleanup_from_decl known fixed dists d else RValueError.
+
+(* no statement assigns a parameter, random variable or data column (domain of the property) *)
+Definition g_no_shadowing (known : list id) (l : list stm) : bool :=
+  forallb (fun st => match st with
+                     | SAssign s _ => negb (memp s known)
+                     | SOde _ _ => true end) l.
 
 (* ---- _get_unused_parameters_and_rvs ------------------------------------------------------------------
    A distribution for this pass: Normal (name, free symbols of the variance) or Joint (names, matrix
@@ -379,3 +435,55 @@ Definition unused_new_params (symbols : list id) (dists : list rdist) (fixed : l
 
 Definition unused_new_rv_names (symbols : list id) (dists : list rdist) : list id :=
   flat_map rdist_names (unused_new_dists symbols dists).
+
+(* ---- get_observation_expression / get_individual_prediction_expression / get_population_... -------
+   for i, s in enumerate(stats): if s.symbol == dv: y = s.expression; break        (FIRST assignment)
+   for j in range(i, -1, -1): y = y.subs({stats[j].symbol: stats[j].expression})
+   A CompartmentalSystem has no `.symbol`: AttributeError (None) when one is met before the assignment. *)
+Fixpoint split_first (s : id) (l : list stm) (pre : list stm) : option (list stm * expr * list stm) :=
+  match l with
+  | [] => None                                               (* ValueError: could not locate ... *)
+  | SOde _ _ :: _ => None                                    (* AttributeError *)
+  | SAssign x e :: tl =>
+      if Pos.eqb x s then Some (pre, e, tl) else split_first s tl (SAssign x e :: pre)
+  end.
+
+Definition subs1 (acc : expr) (st : stm) : expr :=
+  match st with SAssign s t => subs s t acc | SOde _ _ => acc end.
+
+(* [pre] is the reversed prefix, i.e. statements i-1, ..., 0 *)
+Definition obs_expr (l : list stm) (dv : id) : option expr :=
+  match split_first dv l [] with
+  | None => None
+  | Some (pre, e, _) => Some (fold_left subs1 pre (subs dv e e))
+  end.
+
+Definition zeros (xs : list id) : list (id * expr) := map (fun x => (x, Num 0)) xs.
+Definition ipred_expr (l : list stm) (dv : id) (epss : list id) : option expr :=
+  option_map (subs_map (zeros epss)) (obs_expr l dv).
+Definition pred_expr (l : list stm) (dv : id) (epss etas : list id) : option expr :=
+  option_map (subs_map (zeros etas)) (ipred_expr l dv epss).
+
+(* the first assignment of the dependent variable is its only one and does not read itself *)
+Definition g_dv_single (l : list stm) (dv : id) : bool :=
+  match split_first dv l [] with
+  | None => false
+  | Some (_, e, rest) => negb (memp dv (free_syms e)) && negb (memp dv (all_sdefs rest))
+  end.
+
+(* ---- validity of a statement list as a model (what Model.create accepts, plus: no statement assigns a
+   parameter / rv / column, compartment amounts are defined once, by their system, and read only after it).
+   [known] = parameters, rvs, columns, t. *)
+Fixpoint valid_from (known : list id) (l : list stm) (assigned odedefs : list id) : bool :=
+  match l with
+  | [] => true
+  | SAssign s e :: tl =>
+      negb (memp s known) && negb (memp s odedefs)
+      && forallb (fun y => memp y known || memp y assigned || memp y odedefs) (free_syms e)
+      && valid_from known tl (s :: assigned) odedefs
+  | SOde amts args :: tl =>
+      negb (interp_nonempty amts (known ++ assigned ++ odedefs))
+      && forallb (fun y => memp y known || memp y assigned || memp y odedefs) (flat_map free_syms args)
+      && valid_from known tl assigned (amts ++ odedefs)
+  end.
+Definition g_valid (known : list id) (l : list stm) : bool := valid_from known l [] [].
